@@ -22,6 +22,7 @@ import (
 	"github.com/olric-data/olric/events"
 	"github.com/olric-data/olric/internal/cluster/partitions"
 	"github.com/olric-data/olric/internal/protocol"
+	"github.com/olric-data/olric/internal/verifhook"
 	"github.com/olric-data/olric/pkg/neterrors"
 	"github.com/olric-data/olric/pkg/storage"
 	"github.com/tidwall/redcon"
@@ -65,6 +66,9 @@ func (dm *DMap) mergeFragments(part *partitions.Partition, fp *fragmentPack) err
 	defer f.Unlock()
 
 	return f.storage.Import(fp.Payload, func(hkey uint64, entry storage.Entry) error {
+		if verifhook.Enabled {
+			verifhook.Point("merge.entry", dm.s.rt.This().String(), entry.Key())
+		}
 		return dm.fragmentMergeFunction(f, hkey, entry)
 	})
 }
